@@ -117,7 +117,7 @@ func cmdFuzz(args []string) int {
 	base.Put("r.yaml", []byte(`{"version":1,"subject":"CN=fuzz root"}`))
 	base.Put("s.yaml", []byte(`{"version":1,"subject":"CN=fuzz sub","issuer":"r"}`))
 	signRun(base, db.UpdateMissing|db.UpdateChanged, func(a string) string { return a })
-	pemCorpus := [][]byte{base.Files["r.pem"].Data, base.Files["s.pem"].Data, foreignCertAndKey("fz"), foreignCsr("fz")}
+	pemCorpus := [][]byte{base.Files["r.pem"].Data, base.Files["s.pem"].Data, foreignCertAndKey("fz", -1), foreignCsr("fz")}
 
 	w, _ := util.NewNdjsonWriter(*out)
 	id, panics := 0, 0
